@@ -86,6 +86,59 @@ func vfH_C06_match() {
 	}
 }
 
+//vf:assume C06-history: one matcher asked twice: tables = every subset of {h1:80, h1:*, *:*}; two targets in a row, each scheme http/https x host h1/h3 x port absent/80/443; each answer must be the one a fresh matcher gives (an answer never depends on what was asked before)
+
+//vf:harness property=C06 nopanic reach=history-same-host-other-scheme
+func vfH_C06_history() {
+	rows := []vfCredRow{vfCredRows[0], vfCredRows[4], vfCredRows[5]}
+	var creds []*HostPortUser
+	present := make([]bool, len(rows))
+	for i, r := range rows {
+		if vfrt.Choice("entry-present", 2) == 1 {
+			present[i] = true
+			creds = append(creds, &HostPortUser{HostPort: HostPort{Host: r.host, Port: r.port}, Userinfo: url.UserPassword(r.user, "pw")})
+		}
+	}
+	m, err := NewCredentialsMatcher(creds, vfLog{})
+	vfrt.Assert(err == nil, "history/table-accepted")
+	var hosts [2]string
+	var schemes [2]string
+	for q := 0; q < 2; q++ {
+		scheme := []string{"http", "https"}[vfrt.Choice("scheme", 2)]
+		host := []string{"h1", "h3"}[vfrt.Choice("host", 2)]
+		port := []string{"", "80", "443"}[vfrt.Choice("port", 3)]
+		hosts[q], schemes[q] = host, scheme
+		hostport := host
+		if port != "" {
+			hostport += ":" + port
+		}
+		effPort := port
+		if port == "" {
+			effPort = map[string]string{"http": "80", "https": "443"}[scheme]
+		}
+		want := ""
+		for _, key := range [][2]string{{host, effPort}, {"*", effPort}, {host, "0"}, {"*", "0"}} {
+			for i, r := range rows {
+				if want == "" && present[i] && r.host == key[0] && r.port == key[1] {
+					want = r.user
+				}
+			}
+			if want != "" {
+				break
+			}
+		}
+		got := m.MatchURL(&url.URL{Scheme: scheme, Host: hostport})
+		if want == "" {
+			vfrt.Assert(got == nil, "history/no-entry-no-credentials")
+		} else {
+			vfrt.Assert(got != nil && got.Username() == want, "history/answer-independent-of-earlier-questions")
+		}
+	}
+	if hosts[0] == hosts[1] && schemes[0] != schemes[1] {
+		vfrt.Reach("history-same-host-other-scheme")
+	}
+}
+
 func vfBasic(user, pass string) string {
 	return "Basic " + base64.StdEncoding.EncodeToString([]byte(user+":"+pass))
 }
